@@ -160,6 +160,14 @@ def _check_merged_once(ctx: Ctx) -> None:
                         t = norm(i.test).replace(' ', '').replace('"', "'")
                         if any(t in ("%s!='%s'" % (v, SPECIAL), "'%s'!=%s" % (SPECIAL, v), "not%s=='%s'" % (v, SPECIAL)) for v in tvs):
                             excl = True
+                # ... or by an earlier `if name == 'num_skipped_reps': continue` in the same loop body
+                for st_ in l.body:
+                    if any(c is x for x in ast.walk(st_)):
+                        break
+                    if isinstance(st_, ast.If) and not st_.orelse and len(st_.body) == 1 and isinstance(st_.body[0], ast.Continue):
+                        t = norm(st_.test).replace(' ', '').replace('"', "'")
+                        if any(t in ("%s=='%s'" % (v, SPECIAL), "'%s'==%s" % (SPECIAL, v)) for v in tvs):
+                            excl = True
                 # ... or the loop runs over a selection that already left the special name out
                 from ..astutil import expander
                 src = expander(fn)(l.iter)
